@@ -5231,8 +5231,9 @@ func readOfficialHeader(buf []byte) (size uint32, containerTyper func(index uint
 		return size, containerTyper, header, pos, haveRuns, err
 	}
 
-	// descriptive header
-	if pos+2*2*int(size) >= len(buf) {
+	// descriptive header; container data must follow it, except that a bitmap
+	// without containers ends right behind its (empty) header
+	if end := pos + 2*2*int(size); end > len(buf) || (size > 0 && end == len(buf)) {
 		err = fmt.Errorf("malformed bitmap, key-cardinality slice overruns buffer at %d", pos+2*2*int(size))
 		return size, containerTyper, header, pos, haveRuns, err
 	}
